@@ -145,8 +145,8 @@ const BAD_TEXTS: &[&str] = &["c28_b(1). c28_t(X) :- X is 1 + a. c28_b(2).\n", "c
 impl Q {
     fn text(&self) -> Option<String> {
         Some(match self {
-            Q::Unify(t) => format!("X = {}.", t.text()),
-            Q::Member(items) => format!("member(X, [{}]).", items.iter().map(|t| t.text()).collect::<Vec<_>>().join(",")),
+            Q::Unify(t) => format!("X = {}.", no_neg_zero(t).text()),
+            Q::Member(items) => format!("member(X, [{}]).", items.iter().map(|t| no_neg_zero(t).text()).collect::<Vec<_>>().join(",")),
             Q::Pool(i) => pool_entry(*i).1.to_string(),
             Q::Assert(n) => format!("assertz(c28_h({})).", n % 4),
             Q::RetractAll => "retractall(c28_h(_)).".to_string(),
@@ -166,6 +166,17 @@ impl Q {
     }
     fn reads_db(&self) -> bool {
         matches!(self, Q::Pool(i) if matches!(pool_entry(*i).0, "read-h" | "read-g" | "findall-h"))
+    }
+}
+
+/// `-0.0` in source text is read as 0.0 by the reader (a finding in the reader's territory,
+/// C16); the histories use 0.0 instead so that it does not mask everything else here
+fn no_neg_zero(t: &T) -> T {
+    match t {
+        T::Float(f) if *f == 0.0 => T::Float(0.0),
+        T::PList(i, tl) => T::PList(i.iter().map(no_neg_zero).collect(), Box::new(no_neg_zero(tl))),
+        T::Cmp(n, a) => T::Cmp(n.clone(), a.iter().map(no_neg_zero).collect()),
+        o => o.clone(),
     }
 }
 
@@ -226,6 +237,9 @@ impl Item {
 fn new_machine() -> Machine {
     let mut s = Session::new(&[]);
     s.machine.consult_module_string("user", C28_PL);
+    // one completed query after the consult: the reference state is "between two queries"
+    let o = s.ask_raw("c28_loaded(X)", "X");
+    assert!(matches!(o, crate::session::Outcome::Sols(ref v) if v.len() == 1), "c28 program failed to load: {}", o.short());
     s.machine
 }
 
@@ -325,8 +339,13 @@ struct Reference {
     note: Option<String>,
 }
 
+thread_local! {
+    /// reference streams are pure functions of (database model, query text): the cache outlives the
+    /// per-case environments (which the driver throws away after every failing case)
+    static CACHE: RefCell<HashMap<(Db, String), Reference>> = RefCell::new(HashMap::new());
+}
+
 pub struct Env {
-    cache: RefCell<HashMap<(Db, String), Reference>>,
     base_state: String,
     /// long-lived machine that only ever runs pure, completely consumed `X = t` / `member/2`
     /// queries (their answers are additionally checked against the term model)
@@ -335,14 +354,14 @@ pub struct Env {
 
 pub fn mk_env() -> Env {
     let m = new_machine();
-    Env { cache: RefCell::new(HashMap::new()), base_state: control_state(&m), pure_ref: RefCell::new(Some(m)) }
+    Env { base_state: control_state(&m), pure_ref: RefCell::new(Some(m)) }
 }
 
 fn reference(env: &Env, db: &Db, q: &Q) -> Reference {
     let text = q.text().unwrap();
     let key_db = if q.reads_db() { db.clone() } else { Db::default() };
-    if let Some(r) = env.cache.borrow().get(&(key_db.clone(), text.clone())) {
-        return r.clone();
+    if let Some(r) = CACHE.with(|c| c.borrow().get(&(key_db.clone(), text.clone())).cloned()) {
+        return r;
     }
     if matches!(q, Q::Unify(_) | Q::Member(_)) {
         let mut slot = env.pure_ref.borrow_mut();
@@ -392,7 +411,7 @@ fn reference(env: &Env, db: &Db, q: &Q) -> Reference {
         }
     }
     let r = Reference { items, capped, prolog, note };
-    env.cache.borrow_mut().insert((key_db, text), r.clone());
+    CACHE.with(|c| c.borrow_mut().insert((key_db, text), r.clone()));
     r
 }
 
@@ -453,10 +472,28 @@ fn float_variant(a: &T, b: &T) -> bool {
 // the check
 
 fn sig(sym: &str, label: &str, ctx: &str) -> String {
-    if ctx == "after-bad-consult" {
-        format!("{sym}:{ctx}")
+    if ctx == "after-bad-consult" || ctx == "after-exception" {
+        // the machine is damaged by a known finding; the symptoms vary with the heap contents and
+        // are keyed by their kind only
+        format!("{}:{ctx}", sym.split(':').next().unwrap_or(sym))
     } else {
         format!("{sym}:{label}:{ctx}")
+    }
+}
+
+/// the known trigger of the Term::from_heapcell panics: a partial string (one-character atoms)
+/// whose tail is an atom other than []
+fn has_atom_tailed_string(t: &T) -> bool {
+    match t {
+        T::PList(items, tail) => {
+            let last_is_char = matches!(items.last(), Some(T::Atom(a)) if a.chars().count() == 1);
+            let atom_tail = matches!(&**tail, T::Atom(a) if a != "[]");
+            (last_is_char && atom_tail) || items.iter().any(has_atom_tailed_string) || has_atom_tailed_string(tail)
+        }
+        T::Cmp(n, args) => {
+            (n == "." && args.len() == 2 && matches!(&args[0], T::Atom(a) if a.chars().count() == 1) && matches!(&args[1], T::Atom(a) if a != "[]")) || args.iter().any(has_atom_tailed_string)
+        }
+        _ => false,
     }
 }
 
@@ -512,10 +549,13 @@ fn check_impl(env: &mut Env, h: &History, in_child: bool) -> Verdict {
     let mut alive = true;
     let mut verdict: Option<Verdict> = None;
     let mut queries_run = 0;
+    let mut last_exc: Option<Item> = None;
     for (si, step) in h.steps.iter().enumerate() {
         let label = step.q.label();
         let ctx = ctx_label(bad_consult, early_drop, after_exc, queries_run == 0);
-        let excluded = h.clean && matches!(&step.q, Q::ConsultBad(_));
+        // a load with an error leaves the machine in a state where later calls can panic, crash or
+        // hang: such histories only run inside a child process under a watchdog
+        let excluded = (h.clean || !in_child) && matches!(&step.q, Q::ConsultBad(_));
         if excluded {
             continue;
         }
@@ -558,7 +598,14 @@ fn check_impl(env: &mut Env, h: &History, in_child: bool) -> Verdict {
         }
         if let Some(Item::Panic(p)) = r.items.last() {
             // the query panics even on a fresh machine
-            verdict = Some(Verdict::fail(format!("panic:{}:{label}:fresh-machine", panic_loc(p)), format!("on a fresh machine, {text} panics: {p}")));
+            let trigger = match &step.q {
+                Q::Unify(t) => has_atom_tailed_string(t),
+                Q::Member(items) => items.iter().any(has_atom_tailed_string),
+                Q::Pool(i) => matches!(pool_entry(*i).0, "atom-tail" | "dot"),
+                _ => false,
+            };
+            let sg = if trigger && panic_loc(p).contains("lib_machine/mod.rs") { "panic-from-heapcell:atom-tailed-partial-string:fresh-machine".to_string() } else { format!("panic:{}:fresh-machine", panic_loc(p)) };
+            verdict = Some(Verdict::fail(sg, format!("on a fresh machine, {text} panics: {p}")));
             break;
         }
         let full = r.items.len();
@@ -577,6 +624,15 @@ fn check_impl(env: &mut Env, h: &History, in_child: bool) -> Verdict {
             let got = run.items.get(i);
             let exp = if i < expect_items { r.items.get(i) } else { None };
             if got != exp {
+                let got_exc = got.map(|g| g.is_exception()).unwrap_or(false);
+                let exp_exc = exp.map(|g| g.is_exception()).unwrap_or(false);
+                if after_exc && !bad_consult && got_exc && !exp_exc {
+                    verdict = Some(Verdict::fail(
+                        "stale-exception:after-exception",
+                        format!("{detail_head}: item {i} is {} — an earlier query ended with {} — but a fresh machine gives {}", got.map(|x| x.short()).unwrap_or_default(), last_exc.as_ref().map(|x| x.short()).unwrap_or_default(), exp.map(|x| x.short()).unwrap_or("<end of stream>".into())),
+                    ));
+                    break;
+                }
                 let sym = match got {
                     Some(Item::Panic(p)) => format!("panic:{}", panic_loc(p)),
                     Some(_) if exp.is_none() => "extra-item".to_string(),
@@ -611,6 +667,7 @@ fn check_impl(env: &mut Env, h: &History, in_child: bool) -> Verdict {
         // (2) model
         match &step.q {
             Q::Unify(t) => {
+                let t = &no_neg_zero(t);
                 if let Some(it) = run.items.first() {
                     let ok = match (binding(it, "X"), t) {
                         (Some(b), _) => same_term(b, t),
@@ -626,6 +683,7 @@ fn check_impl(env: &mut Env, h: &History, in_child: bool) -> Verdict {
             }
             Q::Member(items) => {
                 for (i, want_t) in items.iter().enumerate() {
+                    let want_t = &no_neg_zero(want_t);
                     if let Some(it) = run.items.get(i) {
                         let ok = binding(it, "X").map(|b| same_term(b, want_t)).unwrap_or(false);
                         if !ok {
@@ -702,9 +760,33 @@ fn check_impl(env: &mut Env, h: &History, in_child: bool) -> Verdict {
         if after_exc {
             nontrivial = true;
         }
-        after_exc = ended_with_exc;
+        // the reported ball is never cleared (known finding), so in histories that do not cleanse
+        // it every later step runs "after an exception"
+        after_exc = ended_with_exc || (after_exc && !h.clean);
         if ended_with_exc {
             classes.push("ends-with-exception".into());
+            last_exc = run.items.last().cloned();
+            if !h.clean && !in_child {
+                // The reported ball is never cleared (known finding stale-exception:after-exception) and
+                // is re-appended to the heap without relocation by the next query: converting it can
+                // read arbitrary memory (a segmentation fault was observed when the ball contains a
+                // string) or loop. What follows an exception is therefore only run in child processes
+                // (the fixed "risky" histories); this history ends here.
+                classes.push("stopped-after-exception".into());
+                break;
+            }
+            if h.clean {
+                // known finding stale-exception:after-exception: the reported ball is never cleared.
+                // A caught throw/1 empties it; clean histories do that and go on, so that the rest of
+                // the "after an exception" behaviour is still compared with a fresh machine.
+                let c = run_query(&mut m, "catch(throw(c28_cleanse), _, true).", 2);
+                if !c.alive {
+                    alive = false;
+                    verdict = Some(Verdict::fail(sig("panic-in-cleansing-query", &label, ctx), format!("{detail_head}: the housekeeping query after the exception panicked: {:?}", c.items.last().map(|x| x.short()))));
+                    break;
+                }
+                classes.push("housekeeping:stale-ball-cleansed".into());
+            }
         }
     }
     if alive {
@@ -741,9 +823,24 @@ fn verdict_from_json(v: &Value) -> Option<Verdict> {
 }
 
 fn risky_labels(h: &History) -> String {
-    let mut v: Vec<String> = h.steps.iter().filter_map(|s| if let Q::Pool(i) = &s.q { if pool_entry(*i).4 { Some(pool_entry(*i).0.to_string()) } else { None } } else { None }).collect();
+    let mut v: Vec<String> = h
+        .steps
+        .iter()
+        .filter_map(|s| match &s.q {
+            Q::Pool(i) if pool_entry(*i).4 || expected_exception(pool_entry(*i).0).is_some() => Some(pool_entry(*i).0.to_string()),
+            Q::ConsultBad(_) => Some("consult-bad".to_string()),
+            _ => None,
+        })
+        .collect();
     v.dedup();
-    v.join("+")
+    // the hang-prone / state-damaging steps name the finding; plain exception steps only when
+    // there is nothing else
+    let strong: Vec<String> = v.iter().filter(|l| l.starts_with("rethrow") || *l == "consult-bad").cloned().collect();
+    if strong.is_empty() {
+        v.join("+")
+    } else {
+        strong.join("+")
+    }
 }
 
 /// median in-process history takes well under 0.3 s; 30 s is > 100x that, and a first timeout is
@@ -793,6 +890,34 @@ fn risky_histories() -> Vec<History> {
             out.push(History { clean: false, steps });
         }
     }
+    // an exception, then ordinary steps (the stale ball is reported again / converted from garbage)
+    for exc in ["error-inst", "ball", "ball-compound", "throw-after-3", "error-exist"] {
+        let followers: Vec<Vec<Step>> = vec![
+            vec![Step { q: Q::Unify(crate::term::atom("a")), consume: 2 }],
+            vec![step("nondet3", 5), step("det-true", 2)],
+            vec![Step { q: Q::Member(vec![crate::term::atom("a"), T::Str("a string é λ".into()), crate::term::int(3)]), consume: 4 }],
+        ];
+        for f in followers {
+            let mut steps = vec![step("det-fact", 2), step(exc, 6)];
+            steps.extend(f);
+            out.push(History { clean: false, steps });
+        }
+    }
+    // a consult with a load-time error, followed by ordinary steps
+    for bad in 0..BAD_TEXTS.len() as u8 {
+        let followers: Vec<Vec<Step>> = vec![
+            vec![step("det-true", 2)],
+            vec![Step { q: Q::Unify(crate::term::atom("a")), consume: 2 }, step("nondet3", 5)],
+            vec![Step { q: Q::Assert(0), consume: 2 }, step("read-h", 3)],
+            vec![Step { q: Q::ConsultGood(1), consume: 0 }, step("read-g", 3)],
+            vec![step("nondet3", 5), step("error-inst", 2), step("det-fact", 2)],
+        ];
+        for f in followers {
+            let mut steps = vec![step("det-fact", 2), Step { q: Q::ConsultBad(bad), consume: 0 }];
+            steps.extend(f);
+            out.push(History { clean: false, steps });
+        }
+    }
     out
 }
 
@@ -811,7 +936,7 @@ impl Prop for C28 {
     }
     fn run_shard(&self, cfg: &ShardCfg) -> ShardResult {
         let mut d = Driver::new(cfg, "C28");
-        let n = cfg.share(cfg.tier.pick(2_000, 100_000));
+        let n = cfg.share(cfg.tier.pick(1_000, 60_000));
         d.run("history", 0, n / 2, 100_000, history_strategy(false), &mk_env, &check);
         d.run("history", 1, n - n / 2, 100_000, history_strategy(true), &mk_env, &check);
         // queries that can hang (exception rethrown through a non-matching catch/3): fixed histories,
